@@ -7,7 +7,9 @@ P=$1; K=$2; ROUND=${3:-1}
 if [ "$ROUND" = "1" ]; then SRC=/tmp/wt_$P/seed_out; TAG=$P-$K; else SRC=/tmp/wt${ROUND}_$P/seed_out; TAG=$P-r$ROUND-$K; fi
 WT=/tmp/sv_${TAG}
 OUT=/verif/seeded/$TAG
-[ -f $SRC/patch$K.diff ] || { echo "no patch $SRC/patch$K.diff"; exit 3; }
+# the agents' scratch worktrees are removed at the end of the session; patch, demonstration and notes are
+# kept under /verif/seeded/<tag>/ and are enough for RECHECK_ONLY=1
+[ -f $SRC/patch$K.diff ] || [ -f $OUT/patch.diff ] || { echo "no patch $SRC/patch$K.diff"; exit 3; }
 # a patch already kept under /verif/seeded/<tag>/ (e.g. rebased onto a later /repo HEAD) takes precedence
 PATCH=$SRC/patch$K.diff
 [ -f $OUT/patch.diff ] && PATCH=$OUT/patch.diff
@@ -36,7 +38,7 @@ if [ $RECHECK = 0 ]; then
 flock $LOCK sh -c "cd $ORIG && git checkout -q -- . && PYTHONPATH=$ORIG timeout 600 /venv/bin/python seed_out/demo$K.py > $WT/demo_without.log 2>&1"; demo_without=$?
 fi
 mkdir -p $OUT
-[ -f $OUT/patch.diff ] || cp $SRC/patch$K.diff $OUT/patch.diff; cp $SRC/demo$K.py $OUT/demo.py; cp $SRC/notes$K.md $OUT/notes.md 2>/dev/null
+[ -f $OUT/patch.diff ] || cp $SRC/patch$K.diff $OUT/patch.diff; cp $SRC/demo$K.py $OUT/demo.py 2>/dev/null; cp $SRC/notes$K.md $OUT/notes.md 2>/dev/null
 : > $OUT/checks.txt
 fired=""; undec=""
 for f in $WT/chk/*.rc; do id=$(basename $f .rc); rc=$(cat $f); 
